@@ -1,6 +1,7 @@
 package main
 
 import (
+	"encoding/json"
 	"log/slog"
 	"time"
 
@@ -90,6 +91,10 @@ func projHeader(ev *c04Event, h *header.Header) {
 	}
 }
 
+var c04Held interface{}
+var c04HeldJS string
+var c04HeldRaw []int
+
 func c04Decode(w *tr.Writer, frame []byte, path, cls string, pad int, lv slog.Level) {
 	ev := c04Event{Raw: tr.Ints(frame), Path: path, Cls: cls, Pad: pad, SatMask: []int{}, SigMask: []int{}, CellMask: []int{}, Sats: []int{}, Sigs: []int{}, SatCells: [][]int{}, Cells: [][]int{}}
 	ev.Panic = tr.Recover(func() {
@@ -128,6 +133,22 @@ func c04Decode(w *tr.Writer, frame []byte, path, cls string, pad int, lv slog.Le
 			ev.Err = errText(err)
 			return
 		}
+		// history: the message decoded BEFORE this one is still held by its user (a lagging display, the proxy's
+		// queue): decoding another message must not change it
+		if c04Held != nil {
+			if now, _ := json.Marshal(c04Held); string(now) != c04HeldJS {
+				hv := c04Event{Raw: c04HeldRaw, Path: path, Cls: "held while the next message was decoded", Pad: 0, SatMask: []int{}, SigMask: []int{}, CellMask: []int{}, Sats: []int{}, Sigs: []int{}, SatCells: [][]int{}, Cells: [][]int{},
+					Err: "an earlier decoded message changed when a later message was decoded"}
+				w.Emit(hv)
+			}
+		}
+		if m4 != nil {
+			c04Held = m4
+		} else {
+			c04Held = m7
+		}
+		js, _ := json.Marshal(c04Held)
+		c04HeldJS, c04HeldRaw = string(js), tr.Ints(frame)
 		if m4 != nil {
 			projHeader(&ev, m4.Header)
 			for _, s := range m4.Satellites {
